@@ -129,11 +129,13 @@ def make_vlt_aperture(
 
             if cartesian_grid.is_separated:
                 x, y = cartesian_grid.separated_coords
-                f = (np.dot(n1, np.array([x[np.newaxis, :], y[:, np.newaxis]], dtype = object)) > c1) * 1.0
-                f *= (np.dot(n2, np.array([x[np.newaxis, :], y[:, np.newaxis]], dtype = object)) < c2) * 1.0
+                x = x[np.newaxis, :]
+                y = y[:, np.newaxis]
+                f = ((n1[0] * x + n1[1] * y) > c1) * 1.0
+                f *= ((n2[0] * x + n2[1] * y) < c2) * 1.0
                 intersection = np.array([c1, c2]).dot(np.linalg.inv(np.array([n1, n2])))
                 ni = np.array([-intersection[1], -intersection[0]])
-                f *= (np.dot(ni, np.array([x[np.newaxis, :], y[:, np.newaxis]], dtype = object)) < 0) * 1.0
+                f *= ((ni[0] * x + ni[1] * y) < 0) * 1.0
             else:
                 x, y = cartesian_grid.coords
                 f = (np.dot(n1, np.array([x, y])) > c1) * 1.0
